@@ -25,7 +25,9 @@ def render_file(rng, f, plain=False):
             else:
                 out.append('c' if plain else rng.choice(['c a comment', '# another comment', 'c', '#', 'c p edge 9 9', 'c e 1 2 3']))
         elif ln['k'] == 'p':
-            out.append('p %s %d %d' % ('edge' if plain else rng.choice(['edge', 'sp', 'col']), ln['n'], nedges))
+            # the edge count of the problem line is informative only: the reader must give one edge per edge line whatever it says
+            mdecl = nedges if plain else rng.choice([nedges, nedges, 0, max(0, nedges - 1), 1, nedges + 3, nedges // 2])
+            out.append('p %s %d %d' % ('edge' if plain else rng.choice(['edge', 'sp', 'col']), ln['n'], mdecl))
         else:
             tag = 'e' if plain else rng.choice(['e', 'a'])
             sep = ' ' if plain else rng.choice([' ', '  ', '\t'])
@@ -272,7 +274,7 @@ def check_C11(res, tier, seed, replay):
         combos = []
         for a in algo_flags:
             for par in ('true', 'false'):
-                for extra in ([], ['--cores', '2'], ['--verbose=true'], ['--printcycles=true'], ['--verbose=true', '--cores', '3', '--printcycles=true']):
+                for extra in ([], ['--cores', '2'], ['--cores', '1'], ['--verbose=true'], ['--printcycles=true'], ['--verbose=true', '--cores', '3', '--printcycles=true']):
                     combos.append((a, par, extra))
         for gi, g in enumerate(valid):
             cs = combos if (tier != 'quick' or gi < 2) else rng.sample(combos, 6)
